@@ -369,6 +369,8 @@ def parse_history(trace_text):
 
 def history_lines(vals, ksteps):
     lines = ['cfg %d %d' % (vals.get('h_cfg_ttl', 100), vals.get('h_cfg_tick', 5))]
+    if vals.get('h_mlf4', 4) not in (0, 4):
+        lines.append('mlf4 %d' % vals['h_mlf4'])  # constructor max_load_factor in quarters (C08 histories)
     draws = vals.get('h_draw', {})
     g = lambda n, i: vals.get(n, {}).get(i, 0)
     for i in range(ksteps):
